@@ -18,7 +18,7 @@ collect)
   tags="-tags verif"
   # with change
   go build -tags verif ./ ./codec/... ./socket/ ./utils/... ./xfer/... ./proto/... ./plugin/... ./mixer/websocket/... > $out/build.log 2>&1; echo "build rc=$?"
-  go test -vet=off -count=1 ./codec/ ./socket/ ./utils/ ./xfer/gzip/ ./mixer/websocket/websocket/ > $out/pinned.log 2>&1; echo "pinned suite rc=$?"
+  go test -vet=off -count=1 -skip '^TestSeededDemo$' ./codec/ ./socket/ ./utils/ ./xfer/gzip/ ./mixer/websocket/websocket/ > $out/pinned.log 2>&1; echo "pinned suite rc=$?"
   timeout 300 go test $tags -run TestSeededDemo -count=1 $pkg > $out/demo_with.log 2>&1; w=$?; echo "demo WITH change rc=$w (expect !=0)"
   git apply -R $out/patch.diff || echo "cannot reverse patch"
   timeout 300 go test $tags -run TestSeededDemo -count=1 $pkg > $out/demo_without.log 2>&1; wo=$?; echo "demo WITHOUT change rc=$wo (expect 0)"
@@ -39,7 +39,7 @@ run)
   for c in "$@"; do
     if [ "$c" = thorough ] || [ "$c" = quick ]; then continue; fi
     t0=$(date +%s)
-    (cd /verif && VERIF_ALT_REPO=$wt python3 check.py $c $tier 2>&1 | grep -E "VIOLATION|^OK|INCONCLUSIVE|rapid\] failed|KNOWN" | cut -c1-400 | head -5)
+    (cd /verif && VERIF_ALT_REPO=$wt python3 check.py $c $tier 2>&1 | grep -a -E "VIOLATION|^OK|INCONCLUSIVE|rapid\] failed|KNOWN" | cut -c1-400 | head -5)
     echo "  [$c $tier: $(( $(date +%s) - t0 )) s]"
   done
   git -C /repo worktree remove --force $wt; git -C /repo worktree prune
